@@ -537,8 +537,11 @@ def conditions(tier, seed):
         for mode in ('api', 'text'):
             # YAQL-text evaluation costs ~1.5 s per path at the API bounds: quick uses budget 8, k<=2, ints<=1 there
             small = quick and mode == 'text'
-            prm = {'s1': s1, 'depth': 1, 'mode': mode, 'budget': 8 if small else budget,
-                   'dmax': 2 if small else (3 if quick else 4), 'imax': 1 if small else (2 if quick else 3)}
+            if mode == 'text' and not quick:
+                prm = {'s1': s1, 'depth': 1, 'mode': mode, 'budget': 10, 'dmax': 3, 'imax': 2, 'kmax': 6}
+            else:
+                prm = {'s1': s1, 'depth': 1, 'mode': mode, 'budget': 8 if small else budget,
+                       'dmax': 2 if small else (3 if quick else 4), 'imax': 1 if small else (2 if quick else 3)}
             out.append({'name': 'single[%s|%s]' % (o.name, mode), 'func': 'h_pipe', 'timeout': 200 if quick else 600,
                         'param': prm, 'twin': mode == 'api',
                         'bounds': '$s.%s over the endless counting source (budget %d): k in 0..%d, int arguments in '
@@ -575,14 +578,19 @@ def conditions(tier, seed):
     else:
         for s1 in firsts:
             for tn in range(3):
-                for mode in ('api', 'text'):
-                    out.append({'name': 'pipe2[%s|third%d|%s]' % (OPS[s1].name, tn, mode), 'func': 'h_pipe',
-                                'timeout': 900,
-                                'param': {'s1': s1, 'depth': 2, 'mode': mode, 'budget': budget, 'dmax': 2, 'imax': 2,
-                                          'kmax': 4, 's2set': thirds[tn]},
-                                'bounds': '$s.%s.<op2>, op2 by symbolic selector among %s; k in 0..2, ints in 0..2, '
-                                          'lambda constants symbolic; %s' % (OPS[s1].name,
-                                                                            [NAMES[x] for x in thirds[tn]], mode)})
+                out.append({'name': 'pipe2[%s|third%d|api]' % (OPS[s1].name, tn), 'func': 'h_pipe', 'timeout': 900,
+                            'param': {'s1': s1, 'depth': 2, 'mode': 'api', 'budget': budget, 'dmax': 2, 'imax': 1,
+                                      'kmax': 4, 's2set': thirds[tn]},
+                            'bounds': '$s.%s.<op2>, op2 by symbolic selector among %s; k in 0..2, ints in 0..1, '
+                                      'lambda constants in -1..4; call API' % (OPS[s1].name,
+                                                                               [NAMES[x] for x in thirds[tn]])})
+            seventh = LATER[s1 % 7::7]
+            out.append({'name': 'pipe2[%s|seventh%d|text]' % (OPS[s1].name, s1 % 7), 'func': 'h_pipe', 'timeout': 900,
+                        'param': {'s1': s1, 'depth': 2, 'mode': 'text', 'budget': 10, 'dmax': 2, 'imax': 1,
+                                  'kmax': 2, 's2set': seventh},
+                        'bounds': '$s.%s.<op2>, op2 by symbolic selector among %s; k in 0..2, ints in 0..1, lambda '
+                                  'constants in -1..2; YAQL text, lambdas through tick()' % (
+                                      OPS[s1].name, [NAMES[x] for x in seventh])})
         small = [NAMES.index(x) for x in ('select', 'where', 'skip', 'take', 'takeWhile', 'distinct', 'memorize',
                                           'insert', 'delete', 'first', 'any', 'indexWhere')]
         for s1 in [NAMES.index(x) for x in ('where', 'select', 'skip', 'selectMany', 'memorize', 'projection')]:
